@@ -4,7 +4,9 @@ import gens, blk, compcases as cc
 from capi import Lib
 from vlib import Oracle, build_lib, hx, md5
 
-CORRESPONDENCE = ["Model.FastApi.compress_fast_extState == LZ4_compress_default/_fast/_fast_extState (return value, bytes, context fields, hash table)"]
+THEOREMS = ["C01_factorisation_decodes", "C01_fast_generic_roundtrip", "C01_fast_extState_roundtrip", "C01_fastReset_history", "C01_initStream_ctx_ok"]
+CORRESPONDENCE = ["Model.FastApi.compress_fast_extState == LZ4_compress_default/_fast/_fast_extState (return value, bytes, context fields, hash table)",
+                  "Model.FastApi.compress_fast_extState_fastReset == LZ4_compress_fast_extState_fastReset over call histories on one context (return value, bytes, context fields, hash table after every call)"]
 RULE = ("inputs from seeded structured generators (random, runs, periodic, text, barely compressible, long-match, self-dictionary, mixed) "
         "with boundary sizes (0..20, 64KB+-12, 65547, 4KB+-1) and exhaustive small-alphabet strings in the thorough tier; x entry point "
         "{default, fast, fast_extState(junk state), HC, HC_extStateHC(junk state), HC fastReset (+favorDecSpeed)} x acceleration/level x capacity {bound, bound-1, n, small}; "
@@ -68,6 +70,35 @@ def one(st, src, rng, res, info):
         if blk.nontrivial_block(out):
             res["keys"].add(cc.key_of(src, variant, p, cap))
 
+def history(st, rng, res, info):
+    """fast-reset one-shot calls of varying size class on one context (C01 entry point + reuse)"""
+    k = rng.choice([2, 3, 5, 8])
+    srcs, params = [], []
+    for _ in range(k):
+        n = rng.choice([0, 5, 12, 13, 100, 1000, 3000, 4095, 4096, 5000, 20000, 60000, 65546, 65547, 70000])
+        if n > 5000 and rng.random() < 0.6:
+            n = rng.choice([100, 2000, 4095])
+        kind = rng.choice(gens.KINDS)
+        src = gens.data(rng, kind, n)
+        if srcs and rng.random() < 0.4:      # share content with the previous, unrelated input (stale-table hazard)
+            src = (srcs[-1][:len(src) // 2] + src)[:n]
+        b = cc.bound(n)
+        srcs.append(src)
+        params.append((rng.choice([b, b, b + 5, max(0, b - 1), n // 2 + 4, rng.randrange(0, b + 2)]), rng.choice(cc.ACCELS)))
+    outs = cc.run_fr_history(st, srcs, params, res, dict(info, junk=rng.randrange(1 << 30)))
+    for src, (cap, acc), (r, out) in zip(srcs, params, outs):
+        res["stats"]["variant_fastReset"] += 1
+        res["stats"]["ret_" + ("pos" if r > 0 else "zero" if r == 0 else "neg")] += 1
+        if r < 0 or r > max(cap, 0):
+            res["fails"].append({"status": "prop_fail", "what": "fastReset returned %d with capacity %d" % (r, cap), "detail": info})
+        elif r > 0:
+            err = blk.decode_checks(st, src, out)
+            if err:
+                res["fails"].append({"status": "prop_fail", "what": "round trip failed after context reuse: " + err,
+                                     "detail": dict(info, sizes=[len(x) for x in srcs], params=params)})
+            if blk.nontrivial_block(out):
+                res["keys"].add(cc.key_of(src, "fr", acc, cap))
+
 def run_case(st, case):
     rng = random.Random(case["bseed"])
     res = cc.new_res()
@@ -85,4 +116,6 @@ def run_case(st, case):
             n = gens.size(rng, case["maxn"])
             src = gens.data(rng, kind, n)
             one(st, src, rng, res, {"bseed": case["bseed"], "j": j, "dkind": kind})
+            if j % 6 == 0:
+                history(st, rng, res, {"bseed": case["bseed"], "j": j, "hist": 1})
     return cc.finish(res, case["mode"])
